@@ -18,10 +18,17 @@ demo() {
     *.cpp) CC="c++ -std=c++11" ;;
     *) CC=cc ;;
   esac
-  LIBS="-L$W/_build/mptcore -lmptcore -Wl,-rpath,$W/_build/mptcore"
-  if grep -q "stream.h\|mptio" "$DEMO"; then LIBS="$LIBS -L$W/_build/mptio -lmptio -Wl,-rpath,$W/_build/mptio"; fi
-  if grep -q "values.h\|layout.h\|history.h\|mpt_output_bind\|mpt_mapping" "$DEMO" "$SRC"/*.h 2>/dev/null; then LIBS="$LIBS -L$W/_build/mptplot -lmptplot -Wl,-rpath,$W/_build/mptplot -L$W/_build/mptio -lmptio -Wl,-rpath,$W/_build/mptio"; fi
-  if grep -q "mpt++\|io.h\|namespace mpt\|mpt::" "$DEMO"; then LIBS="$LIBS -L$W/_build/mptplot -lmptplot -Wl,-rpath,$W/_build/mptplot -L$W/_build/mptio -lmptio -Wl,-rpath,$W/_build/mptio -L$W/_build/mpt++ -lmpt++ -Wl,-rpath,$W/_build/mpt++"; fi
+  CORE="-L$W/_build/mptcore -lmptcore -Wl,-rpath,$W/_build/mptcore"
+  IO="-L$W/_build/mptio -lmptio -Wl,-rpath,$W/_build/mptio"
+  PLOT="-L$W/_build/mptplot -lmptplot -Wl,-rpath,$W/_build/mptplot"
+  CXX="-L$W/_build/mpt++ -lmpt++ -Wl,-rpath,$W/_build/mpt++"
+  HDRS=$(ls "$SRC"/*.h 2>/dev/null)
+  # libmpt++ goes in FRONT of libmptcore: its creator overrides (mpt_meta_new, mpt_node_new) work by link order
+  LIBS=""
+  if grep -q "mpt++\|io.h\|namespace mpt\|mpt::" "$DEMO"; then LIBS="$CXX $PLOT $IO"; fi
+  if grep -q "values.h\|layout.h\|history.h\|mpt_output_bind\|mpt_mapping" "$DEMO" $HDRS 2>/dev/null; then LIBS="$LIBS $PLOT $IO"; fi
+  if grep -q "stream.h\|mptio\|connection.h\|notify.h" "$DEMO" $HDRS 2>/dev/null; then LIBS="$LIBS $IO"; fi
+  LIBS="$LIBS $CORE -rdynamic"
   ARG=""
   if [ -f "$SRC/plugin.c" ]; then cp "$SRC/plugin.c" "$DST/"; cc -shared -fPIC -I"$W/mptcore" "$SRC/plugin.c" -o "$W/plugin.so" || return 99; ARG="$W/plugin.so"; fi
   if grep -q "loader.h\|mpt_library" "$DEMO"; then LIBS="$LIBS -L$W/_build/mptloader -lmptloader -Wl,-rpath,$W/_build/mptloader -ldl"; fi
